@@ -19,8 +19,27 @@ FORCE = None
 PID = "C01"
 
 
+def witness_d18():
+    """known finding D18, replayed from its stored witness: must still show exactly the listed signature"""
+    import json
+    import os
+
+    from ..common import VERIF, Slice
+
+    sl = Slice("known-finding-D18-witness")
+    spec = json.load(open(os.path.join(VERIF, "corpus", "d18_witness.json")))
+    _, res = runs.monitored_run(spec, {PID})
+    sl.cases = 1
+    sl.nontrivial.add("d18")
+    for v in res.get(PID, []):
+        sl.violations.append({"signature": v["signature"], "detail": v["detail"], "replay": {"spec": spec}})
+    sl.sample({"witness": runs.describe(spec), "signatures": [v["signature"] for v in res.get(PID, [])]})
+    return sl
+
+
 def run(ctx):
     return [
+        witness_d18(),
         refine.refine_batch(ctx, ctx.size(120, 1500), force=FORCE, pid=PID, name="trace-refinement(Tree.step vs DemeTree.run)"),
         runs.minimize_slice(ctx, PID, ctx.size(12, 150)),
         runs.monitor_batch(ctx, PID, ctx.size(250, 3000), force=FORCE),
